@@ -298,7 +298,9 @@ class _dblen(Contract):
 
     @staticmethod
     def ensures(c):
-        return [("len_is_number_stored", c.result.t == l_len(c.self.t["_storage"].t["items"].t))]
+        return [("len_is_number_stored", c.result.t == l_len(c.self.t["_storage"].t["items"].t)),
+                # C06 "with automatic indexing on, any read leaves the index valid": len() is a read (known finding KF-20: it is not wrapped by read_op)
+                ("index_valid_after_read_when_auto", z3.Implies(c.self.t["_auto_index"].t, c.self.t["_index"].t["_valid"].t))]
 
 
 @contract(_TF + "all")
